@@ -246,6 +246,7 @@ package config
 //@   at call parsePlugins(pi, pm, pe) (pps, perr): ghost.plugErr = perr
 //@   ensures E1 [C02]: (result1 == nil) == (!(ifi.Monitor && ifi.Advertise) && (ifi.Monitor || (headerAccept(ifi) && ghost.plugErr == nil)))
 //@   ensures E1a [C02]: result1 == nil ==> !(ifi.Monitor && ifi.Advertise) && (ifi.Monitor || headerAccept(ifi))
+//@   ensures E1b [C02]: (result1 == nil) == (!(ifi.Monitor && ifi.Advertise) && (ifi.Monitor || (headerAccept(ifi) && pluginsAccept(ifi, maxOf(ifi)))))
 //@   ensures E2 [C02]: result1 == nil && ifi.Monitor ==> result0 != nil && result0.Name == name && result0.Monitor && !result0.Advertise && result0.Verbose == ifi.Verbose && len(result0.Plugins) == 0 && result0.MaxInterval == 0 && result0.DefaultLifetime == 0
 //@   ensures E3 [C02]: result1 == nil && !ifi.Monitor ==> result0 != nil && result0.Name == name && !result0.Monitor && result0.Advertise == ifi.Advertise && result0.Verbose == ifi.Verbose && result0.MaxInterval == maxOf(ifi) && result0.MinInterval == ite(ifi.MinInterval == "" || ifi.MinInterval == "auto", minDefault(maxOf(ifi)), pdVal(ifi.MinInterval)) && result0.Managed == ifi.Managed && result0.OtherConfig == ifi.OtherConfig && result0.ReachableTime == timerOf(ifi.ReachableTime) && result0.RetransmitTimer == timerOf(ifi.RetransmitTimer) && result0.HopLimit == hopOf(ifi) && result0.DefaultLifetime == durSpecVal(ifi.DefaultLifetime, 3 * maxOf(ifi)) && result0.UnicastOnly == ifi.UnicastOnly && result0.Preference == ite(ifi.Preference == "low", 3, ite(ifi.Preference == "high", 1, 0))
 //@   ensures E4 [C05]: result1 == nil && !ifi.Monitor ==> validIntervals(result0.MinInterval, result0.MaxInterval)
